@@ -1,21 +1,22 @@
 #!/usr/local/bin/python3-vt
-"""seed_import.py <pid> : copy confirmed mutants from /tmp/wt-<pid>/mutants/m<k> into /verif/seeded/<pid>-m<k>/ with meta.json"""
+"""seed_import.py <pid> [round] : copy confirmed mutants from /tmp/wt-<pid>/mutants/m<k> (round 2: /tmp/wt2-<pid>, stored as m3, m4) into /verif/seeded/<pid>-m<k>/ with meta.json"""
 import sys, os, shutil, json, re
 pid = sys.argv[1]
+rnd = int(sys.argv[2]) if len(sys.argv) > 2 else 1
 for k in (1, 2):
-    src = '/tmp/wt-%s/mutants/m%d' % (pid, k)
-    log = '/tmp/confirm-%s-m%d.log' % (pid, k)
+    src = ('/tmp/wt-%s/mutants/m%d' if rnd == 1 else '/tmp/wt2-%s/mutants/m%d') % (pid, k)
+    log = ('/tmp/confirm-%s-m%d.log' if rnd == 1 else '/tmp/confirm2-%s-m%d.log') % (pid, k)
     if not os.path.isdir(src) or not os.path.exists(log):
         print('missing', src, log); continue
     txt = open(log).read()
     m = re.search(r'RESULT tests=\[(.*?)\] demo_mutant=(\d+) demo_clean=(\d+)', txt)
     if not m or '24 passes, 0 failures' not in m.group(1) or m.group(2) == '0' or m.group(3) != '0':
         print('NOT CONFIRMED', pid, k, txt[-300:]); continue
-    dst = '/verif/seeded/%s-m%d' % (pid, k)
+    dst = '/verif/seeded/%s-m%d' % (pid, k + 2 * (rnd - 1))
     os.makedirs(dst, exist_ok=True)
     for f in ('patch.diff', 'demo.cpp', 'notes.txt'):
         shutil.copy(os.path.join(src, f), dst)
-    meta = {'property': pid, 'origin': 'independent sub-agent given only the property text and a scratch worktree',
+    meta = {'property': pid, 'origin': 'independent sub-agent given only the property text and a scratch worktree (round %d)' % rnd,
             'needs_to_manifest': open(os.path.join(src, 'notes.txt')).read().strip(),
             'confirmed': {'how': 'tools/confirm_seed.sh in a scratch worktree: apply patch, forced rebuild, make test, build+run demo; revert, rebuild, run demo',
                           'tests_with_patch': m.group(1), 'demo_exit_with_patch': int(m.group(2)), 'demo_exit_clean': int(m.group(3))},
